@@ -9,9 +9,9 @@
 (*   - enumerates rewrite tables: every multiset of at most MaxLen entries *)
 (*     (one representative order; the specification does not depend on the *)
 (*     order, PermutationInvariant, and the harness replays EVERY order),  *)
-(*     plus two dedicated families given as sequences: CNAME cycles of     *)
-(*     length 1..4 and the four-rung precedence ladder                     *)
-(*     exact > *.l3 > *.l2 > *.l1,                                         *)
+(*     plus dedicated families given as sequences: CNAME cycles of length  *)
+(*     1..4, the four-rung precedence ladder exact > *.l3 > *.l2 > *.l1,   *)
+(*     and long chains (up to 33 links) into cycles, addresses or nothing, *)
 (*   - evaluates every query (name x type) against every table, checks the *)
 (*     clauses of the statement as invariants of that verdict table and    *)
 (*     emits it as one vector per table for the conformance harness,       *)
@@ -30,7 +30,8 @@ CONSTANTS
     Shard,      \* 0 = all tables; p in 1..7 = only tables whose first entry sits at a
                 \* position of EntrySeq congruent to p - 1 modulo 7 (a seventh of them)
     Perms,      \* TRUE: also check PermutationInvariant (costs a factor of Len(tab)!)
-    Families,   \* 0: no families; 1: reduced cycle and ladder families; 2: full families
+    Families,   \* 0: no families; 1: reduced cycle and ladder families; 2: full families;
+                \* 3: the long-chain family only (with U = "chain")
     Mode        \* "gen": tables only (+ vectors); "live": also the step machine;
                 \* "hist": the edit machine (add / delete / update on one table)
 
@@ -61,13 +62,21 @@ Star(n) == <<"*">> \o n
 
 \* Every name that can occur, in a fixed order; vectors refer to names by
 \* their position in this sequence (the header vector carries the sequence).
+\* Names of the long-chain family: leads l1 .. l33 and tails t1 .. t3 under a
+\* top-level label of their own (no pattern of the other universes matches).
+LN(i) == <<"l" \o ToString(i), "k">>
+TN(i) == <<"t" \o ToString(i), "k">>
+MaxChain == 33
+
 NameSeq == <<c, ac, bc, xa_c, xac, yac, xbc, yxac, ed,
              Star(c), Star(ac), Star(bc), Star(xac)>>
+             \o [i \in 1..MaxChain |-> LN(i)] \o [i \in 1..3 |-> TN(i)]
 NameIdx == [n \in {NameSeq[i] : i \in DOMAIN NameSeq} |->
               CHOOSE i \in DOMAIN NameSeq : NameSeq[i] = n]
 
 QNames == IF U = "big" THEN {c, ac, bc, xa_c, xac, yac, xbc, yxac, ed}
           ELSE IF U = "hist" THEN {ac, bc, xa_c, xac, yxac, ed}
+          ELSE IF U = "chain" THEN {LN(1), LN(2), LN(8), LN(9), LN(MaxChain), TN(1), TN(2), TN(3), ed}
           ELSE {c, ac, bc, xa_c, xac, yxac, ed}
 QTypes == {"A", "AAAA", "TXT"}
 Queries == {[h |-> h, t |-> t] : h \in QNames, t \in QTypes}
@@ -156,6 +165,38 @@ LadderTablesOf(sh) ==
            ELSE IF Families = 2 THEN {t \o LadderTail, LadderTail \o Reverse(t)}
            ELSE {t \o LadderTail}
            : r3 \in RungAns(Rungs[3]), r4 \in RungAns(Rungs[4])}
+
+\* ----------------------------------------------------- long-chain family
+(***************************************************************************)
+(* "chains and cycles of any length": a chain l1 -> l2 -> ... -> lL of     *)
+(* L in {1, 2, 7, 8, 9, 16, 33} CNAME entries that ends                    *)
+(*   self     in a name rewritten to itself,                               *)
+(*   cycle2/3 in a cycle of two / three further names (entered only after  *)
+(*            L names and not containing the queried one),                 *)
+(*   back     back at l1 (a cycle of length L),                            *)
+(*   addr     in a name with addresses of both families,                   *)
+(*   keyword  in a name with the "A" keyword,                              *)
+(*   none     in a name the table does not mention,                        *)
+(* entries in chain order or reversed.  The tables are written down        *)
+(* directly, not enumerated.  Queries: l1, l2, l8, l9, l33, the tails.     *)
+(***************************************************************************)
+ChainLens == {1, 2, 7, 8, 9, 16, MaxChain}
+ChainEnds == {"self", "cycle2", "cycle3", "back", "addr", "keyword", "none"}
+ChainShapes == {<<L, e>> : L \in ChainLens, e \in ChainEnds}
+ExactPat(n) == [w |-> FALSE, n |-> n]
+ChainTablesOf(sh) ==
+    LET L == sh[1]
+        e == sh[2]
+        lead == [i \in 1..L |-> Cn(ExactPat(LN(i)), IF i < L THEN LN(i + 1)
+                                               ELSE IF e = "back" THEN LN(1) ELSE TN(1))]
+        tail == CASE e = "self"    -> <<Cn(ExactPat(TN(1)), TN(1))>>
+                  [] e = "cycle2"  -> <<Cn(ExactPat(TN(1)), TN(2)), Cn(ExactPat(TN(2)), TN(1))>>
+                  [] e = "cycle3"  -> <<Cn(ExactPat(TN(1)), TN(2)), Cn(ExactPat(TN(2)), TN(3)), Cn(ExactPat(TN(3)), TN(1))>>
+                  [] e = "addr"    -> <<Ip4(ExactPat(TN(1)), "v4a"), Ip6(ExactPat(TN(1)), "v6a")>>
+                  [] e = "keyword" -> <<Exc(ExactPat(TN(1)), "A")>>
+                  [] OTHER         -> <<>>
+        t == lead \o tail
+    IN {t, Reverse(t)}
 
 \* --------------------------------------------------------- verdict table
 Verdicts(t) == [qq \in Queries |-> Outcomes(t, qq.h, qq.t)]
@@ -395,14 +436,20 @@ AddEntry == /\ stage = "table" /\ Len(tab) < MaxLen
 \* The families, fanned out in two steps (shape, then table) so that TLC's
 \* workers share the work; the shape is parked in cs.visited.
 PickShape  == /\ Families > 0 /\ stage = "table" /\ tab = <<>>
-              /\ \/ \E s \in CycleShapes : cs' = [NoChase EXCEPT !.visited = {<<"cycle", s>>}]
-                 \/ /\ Mode = "gen"     \* termination is about cycles: no ladders in "live"
+              /\ \/ /\ Families \in {1, 2}
+                    /\ \E s \in CycleShapes : cs' = [NoChase EXCEPT !.visited = {<<"cycle", s>>}]
+                 \/ /\ Families \in {1, 2}
+                    /\ Mode = "gen"     \* termination is about cycles: no ladders in "live"
                     /\ \E s \in LadderShapes : cs' = [NoChase EXCEPT !.visited = {<<"ladder", s>>}]
+                 \/ /\ Families = 3
+                    /\ \E s \in ChainShapes : cs' = [NoChase EXCEPT !.visited = {<<"chain", s>>}]
               /\ stage' = "shape"
               /\ UNCHANGED <<tab, last, vt, wit, q, out>>
 PickFamily == /\ stage = "shape"
               /\ \E sh \in cs.visited :
-                   \E t \in (IF sh[1] = "cycle" THEN CycleTablesOf(sh[2]) ELSE LadderTablesOf(sh[2])) :
+                   \E t \in (IF sh[1] = "cycle" THEN CycleTablesOf(sh[2])
+                             ELSE IF sh[1] = "chain" THEN ChainTablesOf(sh[2])
+                             ELSE LadderTablesOf(sh[2])) :
                      /\ tab' = t /\ vt' = Verdicts(t) /\ wit' = Witness(t, vt')
                      /\ stage' = "family" /\ cs' = NoChase
                      /\ Emit(t, vt', wit', 1)
